@@ -17,6 +17,16 @@ def expected_handleMessage : List String := [
 
 theorem handleMessage_eq : Nsq.Gen.ToolsToFile.handleMessage = expected_handleMessage := rfl
 
+/-- does `pat` occur in `s`? (characters) -/
+def occursInR (pat s : List Char) : Bool :=
+  match s with
+  | [] => pat.isPrefixOf []
+  | c :: cs => pat.isPrefixOf (c :: cs) || occursInR pat cs
+
+/-- the effect calls of a skeleton, in source order -/
+def effectCallsR (calls : List String) (skel : List String) : List String :=
+  skel.filterMap fun st => calls.find? fun c => occursInR c.toList st.toList
+
 def expected_router : List String := [
   "pos := 0",
   "output := make([]*nsq.Message, f.opts.MaxInFlight)",
@@ -75,7 +85,45 @@ def expected_router : List String := [
   ".if exit",
   "..break"]
 
-theorem router_eq : Nsq.Gen.ToolsToFile.router = expected_router := rfl
+/-- the record write of `router()` before fix F46: body and "\n" are two `Write` calls -/
+def routerWriteTwo : List String := [
+  "..._, err := f.Write(m.Body)",
+  "...if err != nil",
+  "....os.Exit(1)",
+  "..._, err = f.Write([]byte(\"\\n\"))",
+  "...if err != nil",
+  "....os.Exit(1)"]
+
+/-- … and with fix F46: one `Write` of body + "\n" (model parameter `Cfg.oneWrite`) -/
+def routerWriteOne : List String := [
+  "...record := make([]byte, 0, len(m.Body)+1)",
+  "...record = append(record, m.Body...)",
+  "...record = append(record, '\\n')",
+  "..._, err := f.Write(record)",
+  "...if err != nil",
+  "....os.Exit(1)"]
+
+/-- the skeleton of `router()` with fix F46: `expected_router` with the six statements of the record write replaced -/
+def expected_router_fixed : List String := expected_router.take 30 ++ routerWriteOne ++ expected_router.drop 36
+
+/-- the replaced statements are exactly the two-write block -/
+theorem expected_router_write_block : (expected_router.drop 30).take 6 = routerWriteTwo := by decide
+
+/-- **`router()` has one of the two known shapes** (tree before / with fix F46); which one the model runs with
+(`Cfg.oneWrite`) is probed on the real `router()` by the harness (`vfE8ProbeOneWrite`) and cross-checked against
+`routerOneWrite` by `props/C19.py`. Any other edit of `router()` breaks this. -/
+theorem router_eq :
+    Nsq.Gen.ToolsToFile.router = expected_router ∨ Nsq.Gen.ToolsToFile.router = expected_router_fixed := by decide
+
+/-- the shape of the current tree -/
+def routerOneWrite : Bool := decide (Nsq.Gen.ToolsToFile.router = expected_router_fixed)
+
+/-- the two shapes differ only in the number of `Write` calls per record: the effect calls in source order are
+write(s) (error → exit), `Sync()` (error → exit), `Finish()` -/
+theorem router_write_calls :
+    effectCallsR ["f.Write(", "f.Sync()", "m.Finish()", "os.Exit(1)"] Nsq.Gen.ToolsToFile.router =
+      (if routerOneWrite then ["f.Write(", "os.Exit(1)", "f.Sync()", "os.Exit(1)", "m.Finish()"]
+       else ["f.Write(", "os.Exit(1)", "f.Write(", "os.Exit(1)", "f.Sync()", "os.Exit(1)", "m.Finish()"]) := by decide
 
 def expected_close : List String := [
   "if f.out == nil",
@@ -263,7 +311,53 @@ def expected_updateFile : List String := [
   "else",
   ".f.writer = f.out"]
 
-theorem updateFile_eq : Nsq.Gen.ToolsToFile.updateFile = expected_updateFile := rfl
+/-- fix F47: before the `break` that accepts the opened file, a non-empty file opened with O_APPEND gets its torn
+tail sealed (model parameter `Cfg.sealsTail`, `Model.ToFile.sealTail`) -/
+def updateFileSeal : List String := [
+  ".if openFlag&os.O_APPEND != 0 && f.filesize > 0",
+  "..err = f.sealTornTail(absFilename)",
+  "..if err != nil",
+  "...os.Exit(1)"]
+
+def expected_updateFile_fixed : List String := expected_updateFile.take 41 ++ updateFileSeal ++ expected_updateFile.drop 41
+
+theorem expected_updateFile_break : (expected_updateFile.drop 41).take 1 = [".break"] := by decide
+
+/-- `sealTornTail` (exists only with fix F47; absent = empty skeleton): read the last byte, write "\n" unless it is one -/
+def expected_sealTornTail : List String := [
+  "r, err := os.Open(name)",
+  "if err != nil",
+  ".return err",
+  "defer r.Close()",
+  "last := make([]byte, 1)",
+  "_, err = r.ReadAt(last, f.filesize-1)",
+  "if err != nil",
+  ".return err",
+  "if last[0] == '\\n'",
+  ".return nil",
+  "n, err := f.out.Write([]byte(\"\\n\"))",
+  "f.filesize += int64(n)",
+  "return err"]
+
+/-- **`updateFile()` has one of the two known shapes** (tree before / with fix F47; with the fix `sealTornTail` is the
+frozen function above). Which one the model runs with (`Cfg.sealsTail`) is probed on the real `updateFile()`
+(`vfE8ProbeSealsTail`) and cross-checked against `updateFileSeals` by `props/C19.py`. -/
+theorem updateFile_eq :
+    (Nsq.Gen.ToolsToFile.updateFile = expected_updateFile ∧ Nsq.Gen.ToolsToFile.sealTornTail = []) ∨
+    (Nsq.Gen.ToolsToFile.updateFile = expected_updateFile_fixed ∧
+      Nsq.Gen.ToolsToFile.sealTornTail = expected_sealTornTail) := by decide
+
+def updateFileSeals : Bool := decide (Nsq.Gen.ToolsToFile.updateFile = expected_updateFile_fixed)
+
+/-- in both shapes: the O_EXCL / O_APPEND choice, the open, the size check; the seal (if any) comes after the
+rotate-size `continue` and before the `break` — the order `Model.ToFile.openNew` uses -/
+theorem updateFile_open_order :
+    effectCallsR ["openFlag |= os.O_EXCL", "openFlag |= os.O_APPEND", "os.OpenFile(", "f.filesize = fi.Size()",
+                  "f.sealTornTail(", "break"] Nsq.Gen.ToolsToFile.updateFile =
+      (if updateFileSeals then ["openFlag |= os.O_EXCL", "openFlag |= os.O_APPEND", "os.OpenFile(", "f.filesize = fi.Size()",
+                                "f.sealTornTail(", "break"]
+       else ["openFlag |= os.O_EXCL", "openFlag |= os.O_APPEND", "os.OpenFile(", "f.filesize = fi.Size()", "break"]) := by
+  decide
 
 def expected_exclusiveRename : List String := [
   "err := os.Link(src, dst)",
@@ -316,7 +410,7 @@ theorem router_sync_before_finish :
     ∧ pos "....m.Finish()" router < router.length
     ∧ (router.drop (pos "...err := f.Sync()" router)).take 4 =
         ["...err := f.Sync()", "...if err != nil", "....os.Exit(1)", "...for pos > 0"] := by
-  rw [router_eq]; decide
+  rcases router_eq with h | h <;> rw [h] <;> decide
 
 /-- in `Sync`: gzip member close, then fsync (both branches fsync) -/
 theorem sync_order :
